@@ -5,7 +5,12 @@
 (* (bounded exhaustive); every behaviour of length Depth is printed as JSON.   *)
 EXTENDS HeaderChain, Json
 CONSTANTS Depth,      \* operations per behaviour
-          Ops         \* enabled operation kinds
+          Ops,        \* enabled operation kinds
+          Script,     \* <<>> or a sequence of step kinds ("grow" = accepting submission, "submit", "clean",
+                      \* "save", "load", "mark", "unmark", "subscribe", "any"): step i must be of kind Script[i].
+                      \* With BFS this enumerates a scenario family exhaustively (all trees, all orders).
+          Lean        \* TRUE: at most one orphan and few duplicate candidates per state, so that random
+                      \* simulation spends its steps on tree-shaping submissions
 VARIABLE hist
 gvars == <<vars, hist>>
 
@@ -23,6 +28,12 @@ Ended == hist # <<>> /\ hist[Len(hist)].op = "reload"
 Dict(b) == \/ parent[b] \notin acc
            \/ (SafeHeld(parent[b]) /\ (b \in acc => SafeHeld(b)))
 
+Orphans == {c \in Blocks : parent[c] \notin acc}
+LeanOK(b) == \/ ~Lean
+             \/ (parent[b] \in acc /\ b \notin acc)
+             \/ (parent[b] \notin acc /\ b = MinSet(Orphans))
+             \/ (b \in acc /\ (b = tip \/ (SideBlocks # {} /\ b = MinSet(SideBlocks))))
+
 \* Load not directly after Save: only the crash-style relation is promised (C12); terminal.
 Reload == /\ disk.has /\ last.op # "save"
           /\ hist' = Append(hist, [op |-> "reload", b |-> 0, exp |-> Exp])
@@ -31,17 +42,22 @@ Reload == /\ disk.has /\ last.op # "save"
 \* Marking is only generated for blocks that are safely held or not accepted.
 MarkOK(b) == b \notin acc \/ SafeHeld(b)
 
+Kind(k) == \/ Script = <<>>
+           \/ (Len(hist) < Len(Script) /\ Script[Len(hist) + 1] \in {k, "any"})
+Grow(b) == parent[b] \in acc /\ b \notin acc
 GNext == /\ Len(hist) < Depth /\ ~Ended
-         /\ \/ "submit" \in Ops /\ \E b \in Blocks : Dict(b) /\ Submit(b) /\ NoTie' /\ Step("submit", b)
-            \/ "clean" \in Ops /\ last.op # "clean" /\ Clean /\ Step("clean", 0)
-            \/ "save" \in Ops /\ last.op # "save" /\ Save /\ Step("save", 0)
-            \/ "load" \in Ops /\ Load /\ Step("load", 0)
-            \/ "reload" \in Ops /\ Reload
-            \/ "subscribe" \in Ops /\ Subscribe /\ Step("subscribe", 0)
-            \/ "mark" \in Ops /\ \E b \in Blocks : MarkOK(b) /\ Mark(b) /\ NoTie' /\ Step("mark", b)
-            \/ "mark" \in Ops /\ \E b \in Blocks : Unmark(b) /\ Step("unmark", b)
+         /\ \/ "submit" \in Ops /\ \E b \in Blocks : /\ Kind("submit") \/ (Kind("grow") /\ Grow(b))
+                                                     /\ Dict(b) /\ LeanOK(b) /\ Submit(b) /\ NoTie' /\ Step("submit", b)
+            \/ "clean" \in Ops /\ Kind("clean") /\ last.op # "clean" /\ Clean /\ Step("clean", 0)
+            \/ "save" \in Ops /\ Kind("save") /\ last.op # "save" /\ Save /\ Step("save", 0)
+            \/ "load" \in Ops /\ Kind("load") /\ Load /\ Step("load", 0)
+            \/ "reload" \in Ops /\ Kind("reload") /\ Reload
+            \/ "subscribe" \in Ops /\ Kind("subscribe") /\ Subscribe /\ Step("subscribe", 0)
+            \/ "mark" \in Ops /\ Kind("mark") /\ \E b \in Blocks : MarkOK(b) /\ Mark(b) /\ NoTie' /\ Step("mark", b)
+            \/ "mark" \in Ops /\ Kind("unmark") /\ \E b \in Blocks : Unmark(b) /\ Step("unmark", b)
 GSpec == GInit /\ [][GNext]_gvars
 
-Emit == (Len(hist) < Depth /\ ~Ended) \/
+\* a scripted behaviour that cannot continue (no enabled step of the scripted kind) is emitted as it is
+Emit == (Len(hist) < Depth /\ ~Ended /\ ENABLED GNext) \/ Len(hist) = 0 \/
         PrintT(<<"BEH", ToJson([parent |-> parent, work |-> work, ops |-> hist])>>)
 =============================================================================
